@@ -128,7 +128,11 @@ def discharge(ob, z3_ms=None, cli_s=None, use_cli=True):
         reason = sol.reason_unknown() if r == z3.unknown else None
         reasonA = reason
     # B. quantifier-free part only (fewer assumptions: unsat is definitive; sat is definitive when nothing was dropped)
-    r, sol = _check(qf, ob.goal, z3_ms)
+    # (run times of the string/sequence solver are heavy-tailed: a short restart portfolio over random seeds first)
+    for seed, ms in ((0, z3_ms // 4), (1, z3_ms // 4), (2, z3_ms // 4), (3, z3_ms)):
+        r, sol = _check(qf, ob.goal, ms, **{"smt.random_seed": seed})
+        if r != z3.unknown:
+            break
     if r == z3.unsat:
         return dict(status="proved", backend=backend, time=time.time() - t0, model=None)
     if r == z3.sat:
